@@ -360,7 +360,7 @@ def explains_line(h):
 
 def plan(tier, rng, g, widen, hist):
     """Lines per probe process."""
-    nproc, nseq, nsmall, nlarge = (3, 120, 150, 6) if tier == 'quick' else (8, 600, 1500, 30)
+    nproc, nseq, nsmall, nlarge = (3, 120, 150, 6) if tier == 'quick' else (8, 600, 800, 20)
     if widen:
         nlarge *= 10
         nsmall *= 3
@@ -372,7 +372,7 @@ def plan(tier, rng, g, widen, hist):
         for _ in range(nsmall):
             lines.append(gen_crun_small(rng, g))
         for k in range(nlarge):
-            unit = (1, 1) if (tier == 'thorough' or widen) and k == 0 else None
+            unit = (1, 1) if (tier == 'thorough' or widen) and k == 0 and p % 2 == 0 else None
             lines.append(gen_crun_large(rng, g, tier, unit))
         procs.append(lines)
     return procs
